@@ -470,6 +470,34 @@ pub mod ring {
     }
 }
 
+/// Hasher state for a map whose look-ups can depend on the hash values themselves (keys whose
+/// `Eq` is not transitive): keyed from the world's entropy, so that one seed is one behaviour
+pub mod hash {
+    #[derive(Clone)]
+    pub struct SeededState(u64, u64);
+
+    impl Default for SeededState {
+        fn default() -> Self {
+            let mut k = [0u8; 16];
+            super::os::fill_random(&mut k);
+            Self(
+                u64::from_le_bytes(k[..8].try_into().unwrap()),
+                u64::from_le_bytes(k[8..].try_into().unwrap()),
+            )
+        }
+    }
+
+    impl ::std::hash::BuildHasher for SeededState {
+        #[allow(deprecated)]
+        type Hasher = ::std::hash::SipHasher;
+
+        #[allow(deprecated)]
+        fn build_hasher(&self) -> Self::Hasher {
+            ::std::hash::SipHasher::new_with_keys(self.0, self.1)
+        }
+    }
+}
+
 /// Entry points into module-private code, each a call and never a copy of logic
 pub mod door {
     /// What a listener or session holds of a [`crate::shutdown::Shutdown`]: the crate-private
